@@ -40,11 +40,12 @@ fn main() {
         i += 1;
     }
     let scale: f64 = std::env::var("VERIF_SCALE").ok().and_then(|s| s.parse().ok()).unwrap_or(1.0);
+    let out_dir = std::env::var("AVM_OUT_DIR").map(PathBuf::from).unwrap_or_else(|_| verif_dir.clone());
     let workers: usize = std::env::var("VERIF_WORKERS").ok().and_then(|s| s.parse().ok()).unwrap_or(16);
     match args[1].as_str() {
         "check" => {
             let id: &'static str = Box::leak(args[2].clone().into_boxed_str());
-            let cfg = Cfg { id, tier, seed, workers, verif_dir, started: Instant::now(), scale };
+            let cfg = Cfg { id, tier, seed, workers, verif_dir, out_dir, started: Instant::now(), scale };
             let code = avm::dispatch(&cfg, &extra);
             std::process::exit(code);
         }
@@ -52,7 +53,7 @@ fn main() {
             std::process::exit(avm::longgame::child(&args[2..]));
         }
         "replay" => {
-            let cfg = Cfg { id: "replay", tier, seed, workers: 1, verif_dir, started: Instant::now(), scale };
+            let cfg = Cfg { id: "replay", tier, seed, workers: 1, verif_dir, out_dir, started: Instant::now(), scale };
             std::process::exit(avm::replay::replay(&cfg, &args[2]));
         }
         _ => usage(),
